@@ -29,6 +29,7 @@ inductive Op
   | normalBuffer | altBuffer
   | setSize (e : Extent)                -- terminal.set_size(e)
   | rawWrite (bs : List Byte)           -- terminal.write(bytes): handed to the channel unchanged
+  | input (bs : List Byte)              -- bytes arriving on the INPUT side between two output operations: no effect here
 deriving DecidableEq, Repr, Inhabited
 
 -- ---------------------------------------------------------------- cursor.cpp
@@ -141,6 +142,7 @@ def step (beh : Behaviour) (s : TermState) : Op → TermState × List Byte
   | .altBuffer => (s, altBufferBytes)
   | .setSize e => ({ s with size := e, cursor := none, saved := none }, [])
   | .rawWrite bs => (s, bs)
+  | .input _ => (s, [])
 
 /-- a history of operations: final state and everything written to the channel -/
 def run (beh : Behaviour) : TermState → List Op → TermState × List Byte
